@@ -1,0 +1,48 @@
+//! Verification facade (cargo feature `verif`, off by default).
+//!
+//! Forwarding wrappers only: they expose crate-private entry points to an
+//! out-of-tree verification harness. No logic lives here.
+
+use std::collections::HashSet;
+
+use crate::digest::Digest;
+use crate::serialize::{Deserializable, Serializable};
+use crate::{Chitchat, ChitchatMessage};
+
+impl Chitchat {
+    pub fn verif_create_syn_message(&self) -> ChitchatMessage {
+        self.create_syn_message()
+    }
+
+    pub fn verif_process_message(&mut self, msg: ChitchatMessage) -> Option<ChitchatMessage> {
+        self.process_message(msg)
+    }
+
+    pub fn verif_update_nodes_liveness(&mut self) {
+        self.update_nodes_liveness()
+    }
+
+    pub fn verif_update_self_heartbeat(&mut self) {
+        self.update_self_heartbeat()
+    }
+
+    pub fn verif_gc_keys_marked_for_deletion(&mut self) {
+        self.gc_keys_marked_for_deletion()
+    }
+
+    /// Serialized delta this node would compute for the given serialized peer digest under the
+    /// given byte budget, with the node's current scheduled-for-deletion set.
+    pub fn verif_compute_delta(&self, digest_bytes: &[u8], mtu: usize) -> anyhow::Result<Vec<u8>> {
+        let mut cursor = digest_bytes;
+        let digest = Digest::deserialize(&mut cursor)?;
+        let scheduled_for_deletion: HashSet<_> = self.scheduled_for_deletion_nodes().collect();
+        let delta = self.cluster_state().compute_partial_delta_respecting_mtu(
+            &digest,
+            mtu,
+            &scheduled_for_deletion,
+        );
+        Ok(delta.serialize_to_vec())
+    }
+}
+
+pub use crate::server::verif_select_nodes_for_gossip;
